@@ -4,12 +4,15 @@ spec: GrpcProxy.tla (+ GrpcProxy_MC.tla universes / behaviour generator)
 TLC : the statement's invariants (ordered exactly-once delivery per direction, caller status =
       backend status, NotFound contacts nobody, one connection per backend counted at the backend's
       listener, dropped after the clean-up, no call cancelled by another call's race for the pool) on
-      four configurations: (a) the complete per-call universe, (b) histories of <=3 calls with table
-      changes and clean-up ticks, (c) bursts of 2-3 overlapping first calls with every interleaving of
-      their pool accesses, (d) outages (BackendDown / BackendUp) with calls during the outage, recovery,
-      leaving the table and clean-up; every examined transition that completes a call, a burst or a
+      five configurations: (a) the complete per-call universe (incl. the health-checking method paths a
+      grpc.Server could answer itself, and final statuses Unavailable / ResourceExhausted sent trailers-only),
+      (b) histories of <=3 calls with table changes and clean-up ticks, (c) bursts of 2-3 overlapping first
+      calls with every interleaving of their pool accesses, (d) outages (BackendDown / BackendUp) with calls
+      during the outage, recovery, leaving the table and clean-up, (e) flapping: leave, clean-up, re-enter,
+      a stream in flight while the old connection is closed; every examined transition that completes a call, a burst or a
       closing tick is printed as a behaviour with what an observer must see
-bind: every behaviour replayed against a real grpc.Server with main.newGrpcProxy's options,
+bind: every behaviour replayed against a listener started through proxy.ListenAndServeGRPC with
+      main.newGrpcProxy's options (as main does),
       real grpc_testing.TestService backends behind counting listeners (stopped and restarted on the
       same address for outages) and a real client (harness/main/c16_test.go)"""
 import json, os, random, threading, time
@@ -85,10 +88,13 @@ def corrupt(b, how):
 def run(ctx):
     ctx.level = "model_checking"
     ctx.assumptions += [
-        "universe: 2 backends; route slots {/grpc.testing.TestService/, h1/grpc.testing.TestService/ (+ /grpc.testing.TestService/UnaryCall in thorough)}; dsthost in {none, h1, h2 (no route: host-less routes apply)}; unary / client-stream / server-stream / bidi calls with <=2 messages per direction, backend scripts eager/echo/late/early-finish, headers {none, SetHeader, SendHeader}, trailers {none, some}, status {OK, NotFound, Internal, 42}; metadata {none, one key, repeated values + -bin key}; histories of <=3 calls with <=2 table changes and <=2 clean-up ticks; bursts of 2-3 unary / bidi calls; <=1 outage with <=4 (5) calls around it",
+        "universe: 2 backends; route slots {/grpc.testing.TestService/, h1/grpc.testing.TestService/ (+ /grpc.testing.TestService/UnaryCall in thorough)}; dsthost in {none, h1, h2 (no route: host-less routes apply)}; unary / client-stream / server-stream / bidi calls with <=2 messages per direction, backend scripts eager/echo/late/early-finish, headers {none, SetHeader, SendHeader}, trailers {none, some}, status {OK, NotFound, Unavailable, 42 (+ ResourceExhausted, Internal in thorough)}; metadata {none, one key, repeated values + -bin key}; histories of <=3 calls with <=2 table changes and <=2 clean-up ticks; bursts of 2-3 unary / bidi calls; <=1 outage with <=4 (5) calls around it",
         "calls of one history are sequential except in bursts: 2-3 calls started together for a backend without a pooled connection, each held at the backend until all are in flight; the interleaving of their pool accesses cannot be steered, so every burst is played several times; per-call behaviours run 8 at a time over warmed-up connections",
         "outages: the backend's listener is closed (all its connections die) and later reopened on the same address; nothing is asserted about the status of a call whose backend does not listen, except that nobody else serves it; after the recovery a call must get through within 20 s (gRPC's reconnect back-off is ~1-3 s); from then on connections OPEN AT THE BACKEND'S LISTENER are counted (<=1 while in the table, observed for 2.5 s / 4 s after recovery and after the clean-up; 0 after it left the table and the clean-up ran), not dials",
         "after a burst the backend must have exactly one open connection within 5 s",
+        "flapping: grpcshutdowntimeout is 3 s in these behaviours; the proxy's clean-up timer cannot be observed before it closes something, so the tick is taken to have happened 1 s after it was due (5 s after the proxy was made) - if it is later still, the behaviour says nothing and is counted; the closing of the old connection ('d' in the call's event order) is observed at the backend's socket",
+        "every call is counted at the backend by its id: a call that reaches a backend twice (a retry replaying the caller's messages) is a violation whatever the caller sees",
+        "method paths of services a grpc.Server may register itself: grpc.health.v1.Health/Check and /Watch, routed for host h1 only (reflection and channelz paths are not exercised)",
         "a message token stands for a protobuf message with a seeded payload of 0 B .. 70 KB (1 MiB now and then in thorough), below the configured 4 MiB limit",
         "the routing hint dsthost is compared like any other metadata of the caller; transport-level metadata (user-agent, content-type, :authority) and status details are not compared; NotFound is checked by code only",
         "a backend that was missing from a table since its connection was made may have lost the connection to the proxy's own 5 s timer at any time: its next call may dial once or reuse (spec: conn = may)",
